@@ -40,6 +40,7 @@ package capacity
 //@   ensures fills-up-to-smallest-plot: err == nil ==> currentSize <= result1 && result1 <= targetSize && targetSize - result1 < 100663296
 
 //@ func fillSpaceListByPathSize
+//@   assert-at call PlotSize#1 only-spaces-of-exactly-this-directory-count-towards-it: space.rootDir == old(path)
 //@   requires size-range: 0 <= currentSize && currentSize <= targetSize && targetSize <= 4611686018427387904
 //@   requires spaces-non-nil: forall b int :: has(srcMap, b) ==> (forall j int :: 0 <= j && j < len(srcMap[b]) ==> srcMap[b][j] != nil)
 //@   loop i invariant reversed: tmpLen == 3 && len(allowedBL) == 3 && ((i == 0 && allowedBL[0] == 24 && allowedBL[1] == 26 && allowedBL[2] == 28) || (i == 1 && allowedBL[0] == 28 && allowedBL[1] == 26 && allowedBL[2] == 24))
